@@ -203,6 +203,32 @@ def _sympy_re_im(which):
     return Builtin(f"sympy.{which}", f)
 
 
+def val_assumption(v, name):
+    """SymPy's three-valued assumption attribute `name` of a NUMERIC value v (Val sort) as a pyvc Tri; None if not in the table.
+    Audited against the real library (contracts/audit.py, probe 'assumption attributes')."""
+    from ..pyvc import Tri
+    k, re_, im_ = M.v_kind(v), M.Val.re(v), M.Val.im(v)
+    fin, inf, nanv = k == M.FIN, z3.Or(k == M.PINF, k == M.NINF), k == M.NAN
+    zero = z3.And(fin, re_ == 0, im_ == 0)
+    real = z3.And(fin, im_ == 0)
+    table = {
+        "is_zero": (zero, z3.Or(z3.And(fin, z3.Not(zero)), inf)),
+        "is_finite": (fin, inf),
+        "is_infinite": (inf, fin),
+        "is_real": (real, z3.Or(z3.And(fin, im_ != 0), inf)),
+        "is_positive": (z3.And(real, re_ > 0), z3.Or(z3.And(real, re_ <= 0), z3.And(fin, im_ != 0), inf)),
+        "is_negative": (z3.And(real, re_ < 0), z3.Or(z3.And(real, re_ >= 0), z3.And(fin, im_ != 0), inf)),
+        "is_nonzero": (z3.And(real, re_ != 0), z3.Or(zero, z3.And(fin, im_ != 0), inf)),
+    }
+    if name not in table:
+        return None
+    assumed("assumption attributes", "x.is_zero / is_finite / is_infinite / is_real / is_positive / is_negative / is_nonzero of a numeric SymPy value are "
+            "three-valued (True / False / None): None for NaN and for values with free symbols, decided by the value otherwise")
+    t, f = table[name]
+    sym = k == M.SYMB
+    return Tri(z3.And(t, z3.Not(sym), z3.Not(nanv)), z3.And(f, z3.Not(sym), z3.Not(nanv)))
+
+
 # names a module may import from sympy: the model is bound only when the module's own import statements bind that name
 SYMPY_NAMES = {"re": _sympy_re_im("re"), "im": _sympy_re_im("im")}
 
